@@ -198,3 +198,36 @@ func vh_C03_L4_forward_tsn_sanity() {
 // C03.L5: the reassembly queue fed with arbitrary chunks (any flags, sequence numbers, TSNs
 // of one window, duplicates) never panics and keeps its accounting (= C11.L1).
 func vh_C03_L5_reassembly_arbitrary_chunks() { vh_C11_L1_counter_exact() }
+
+// C03.L6: a fragment that does not belong to a message cannot corrupt it. An I-DATA message
+// is complete but still held (an earlier one is missing); then an arbitrary further fragment
+// for the same stream and message identifier arrives (any fragment number, any flags, fresh
+// TSN): the complete message is unchanged and is delivered intact once its turn comes.
+func vh_C03_L6_stray_fragment_cannot_corrupt_complete_message() {
+	r := newReassemblyQueue(3, 0)
+	mid, base := nondetU32(), nondetU32()
+	r.nextMID = mid
+	unordered := vPick(2) == 1
+	nf := 1 + vPick(2)
+	held := vMakeMsg(3, true, unordered, 0, mid+1, base, nf, PayloadTypeWebRTCString)
+	for _, c := range held.chunks {
+		r.push(c)
+	}
+	stray := &chunkPayloadData{
+		streamIdentifier: 3, iData: true, unordered: unordered, messageIdentifier: mid + 1,
+		fragmentSequenceNumber: nondetU32(), beginningFragment: nondetBool(), endingFragment: nondetBool(),
+		tsn: base + 100, userData: nondetBytes(2), payloadType: PayloadTypeWebRTCBinary,
+	}
+	stray.streamSequenceNumber = uint16(mid + 1)
+	_, _ = r.pushWithError(stray)
+	buf := make([]byte, 16)
+	if !unordered {
+		first := vMakeMsg(3, true, false, 0, mid, base-1, 1, PayloadTypeWebRTCBinary)
+		r.push(first.chunks[0])
+		n, _, err := r.read(buf)
+		vassert(err == nil && n == 1, "the earlier message is read first")
+	}
+	n, ppi, err := r.read(buf)
+	vassert(err == nil && n == nf && vBytesEq(buf[:n], held.bytes) && ppi == PayloadTypeWebRTCString, "the complete message is delivered exactly as it was received, whatever stray fragment followed it")
+	vcover("end")
+}
